@@ -126,6 +126,12 @@ def run(ctx, env):
         wr = sorted(region & write_blocks.get(path, set()))
         oks = [s for (blk, i, s) in block_aggs(b, region) if s["rv"]["adt"].endswith("result::Result") and s["rv"]["variant"] == "Ok"]
         errs = [s for (blk, i, s) in block_aggs(b, region) if s["rv"]["adt"].endswith("result::Result") and s["rv"]["variant"] == "Err"]
+        # Err built by a private helper (`return Self::verify_failure(i)`)
+        for blk, t, c in b.calls():
+            if blk in region and c is not None and c.local and t["dest"]["l"] == 0:
+                ev = peel(an.expand(an.slicer(b).call_expr(blk, t)))
+                if ev[0] == "agg" and ev[2] == "Err":
+                    errs.append(("helper", c.path))
         ctx.ob("R7.2", path, "fallthrough-is-Err", bool(errs) and not oks and not dec_calls and not wr,
                "fall-through region (%d blocks): Err built=%s, Ok built=%d, decoder calls=%s, cache writes=%s" % (len(region), bool(errs), len(oks), dec_calls, wr),
                site=b.line(min(region)) if region else "")
@@ -181,24 +187,26 @@ def run(ctx, env):
                 ctx.ob("R7.4", "variable_versions::v9::FlowSet::parse", "v9-propagates-flowset-error", only_branch,
                        "called from %s: %s" % (bb.path, "result consumed only by `?`" if only_branch else "result is inspected / swallowed: %s" % [u[0] for u in uses]), site=bb.line(blk))
     ctx.floor("R7.4", "v9", "call sites of v9::FlowSet::parse", nsites, 1)
-    ib = prog.body("variable_versions::ipfix::IPFix::parse_be")
-    if ctx.anchor("R7.4", "variable_versions::ipfix::IPFix::parse_be", ib):
-        ok = False
-        why = "many0(complete(..FlowSet::parse..)) not found"
-        for p, b in prog.bodies.items():
-            if not p.startswith(ib.path):
-                continue
-            for blk, t, c in b.calls():
-                if c is not None and c.npath == "nom::multi::many0":
-                    inner = peel(an.op(b, t["args"][0]))
-                    if inner[0] == "call" and inner[2] is not None and inner[2].npath == "nom::combinator::complete":
-                        clo = peel(inner[3][0], identity=(), casts=False)
-                        if clo[0] == "closure":
-                            cb = prog.body(clo[1])
-                            if cb and any(cc is not None and cc.local and cc.path.startswith("variable_versions::ipfix::FlowSet::parse") for _, _, cc in cb.calls()):
-                                ok = True
-                                why = "sets parsed by many0(complete(|i| FlowSet::parse(i, parser)))"
-        ctx.ob("R7.4", ib.path, "ipfix-sets-under-many0-complete", ok, why, site=site(ib.span))
+    ok, why = ipfix_sets_many0_complete(prog, an, bodies)
+    ctx.ob("R7.4", "variable_versions::ipfix::IPFix", "ipfix-sets-under-many0-complete", ok, why)
+
+
+def ipfix_sets_many0_complete(prog, an, bodies):
+    """Some parse-reachable body applies nom many0(complete(P)) where P (closure or fn) calls ipfix::FlowSet::parse."""
+    for p, b in sorted(bodies.items()):
+        for blk, t, c in b.calls():
+            if c is not None and c.npath == "nom::multi::many0":
+                inner = peel(an.op(b, t["args"][0]))
+                if inner[0] == "call" and inner[2] is not None and inner[2].npath == "nom::combinator::complete":
+                    clo = peel(inner[3][0], identity=(), casts=False)
+                    tgt = None
+                    if clo[0] == "closure":
+                        tgt = prog.body(clo[1])
+                    elif clo[0] == "constfn" and clo[1].local:
+                        tgt = prog.body(clo[1].path)
+                    if tgt is not None and any(cc is not None and cc.local and cc.path.startswith("variable_versions::ipfix::FlowSet::parse") for _, _, cc in tgt.calls()):
+                        return True, "sets parsed by many0(complete(..FlowSet::parse..)) in %s" % p
+    return False, "many0(complete(..FlowSet::parse..)) not found on the parse path"
 
 
 def b_arg_index_of_id(prog, d):
